@@ -31,6 +31,7 @@ for pkg in PACKAGES:
             glob = sorted({t.id for st in tree.body for t in ([x for tt in st.targets for x in ast.walk(tt)] if isinstance(st, ast.Assign) else
                                                                [st.target] if isinstance(st, (ast.AnnAssign, ast.AugAssign)) else []) if isinstance(t, ast.Name)})
             shapes[mod] = {q: {"params": relocate.params_of(v[0]), "bag": relocate.bag_of(v[0])} for q, v in inline.all_function_quals(tree).items()}
+            glob = sorted(set(glob) | {st.name for st in tree.body if isinstance(st, (ast.ClassDef, ast.FunctionDef, ast.AsyncFunctionDef))})
             shapes[mod]["<globals>"] = {"params": [], "bag": glob}
 json.dump(table, open(localsig.TABLE_PATH, "w"), indent=0, sort_keys=True)
 json.dump(shapes, open(relocate.SHAPES_PATH, "w"), indent=0, sort_keys=True)
